@@ -17,7 +17,8 @@ RULE = (
     "forms (two points / point+vector / position vector / three points / two vectors / general form), vertex "
     "rotations, reflections and repeats, face permutations and negations, int / float / Fraction coordinates "
     "(dyadic lattice values), and a copy moved by v and back by -v; plus a family of near-miss different sets (one "
-    "defining point displaced by >= 1/512, direction tilted by a lattice step, one vertex changed). Oracle: within "
+    "defining point displaced by >= 1/512, direction tilted by a lattice step, one vertex changed or removed, and "
+    "pairs that differ only by the coordinate values -1 / -2, which collide under CPython's float hash). Oracle: within "
     "a family all ordered pairs a == b, not (a != b), hash(a) == hash(b), len(set(family)) == 1 and dict lookup "
     "with another representation succeeds; across a near-miss pair a != b in both orders; a == a; == against "
     "None, 3, 'x', a tuple and an object of another geometry type is False without raising (Point, Line, Plane, "
@@ -404,6 +405,53 @@ def near_miss(draw, kind):
     return ("NM", kind, o, o2, rep1, rep2, how)
 
 
+@st.composite
+def hash_quirk(draw, kind):
+    """different objects whose coordinates differ only by -1 <-> -2 in one axis: hash(-1.0) == hash(-2.0) in
+    CPython, so every rounded-float hash collides here; == must still tell the objects apart"""
+    i = draw(st.integers(0, 2))
+    j, k = [a for a in range(3) if a != i]
+
+    def pt(a, b, c):
+        q = [F(0)] * 3
+        q[i], q[j], q[k] = F(a), F(b), F(c)
+        return tuple(q)
+
+    lo, hi = draw(st.sampled_from(((-1, -2), (-2, -1))))
+    ab = [(draw(st.integers(-3, 3)), draw(st.integers(-3, 3))) for _ in range(2)]
+    if kind == "P":
+        o, o2 = ("P", pt(lo, *ab[0])), ("P", pt(hi, *ab[0]))
+    elif kind == "V":
+        o, o2 = ("V", pt(lo, *ab[0])), ("V", pt(hi, *ab[0]))
+    elif kind in ("S", "L", "H"):
+        assume(ab[0] != ab[1])
+        p, q = pt(lo, *ab[0]), pt(lo, *ab[1])
+        p2, q2 = pt(hi, *ab[0]), pt(hi, *ab[1])
+        if kind == "S":
+            o, o2 = ("S", p, q), ("S", p2, q2)
+        else:
+            o, o2 = (kind, p, X.sub(q, p)), (kind, p2, X.sub(q2, p2))
+    elif kind == "PL":
+        e = [F(0)] * 3
+        e[i] = F(draw(st.sampled_from((1, -1, 2))))
+        o, o2 = ("PL", pt(lo, *ab[0]), tuple(e)), ("PL", pt(hi, *ab[0]), tuple(e))
+    elif kind == "G":
+        sh = draw(GB.shape2(3, 6))
+        o = ("G", [pt(lo, a, b) for a, b in sh])
+        o2 = ("G", [pt(hi, a, b) for a, b in sh])
+        if draw(st.booleans()):
+            o2 = ("G", list(reversed(o2[1])))
+    else:
+        w, h = draw(st.integers(1, 2)), draw(st.integers(1, 2))
+        a0, b0 = ab[0]
+        top = draw(st.sampled_from((0, 1, 3)))
+        o = X.make_K([pt(z, a, b) for z in (lo, top) for a in (a0, a0 + w) for b in (b0, b0 + h)])
+        o2 = X.make_K([pt(z, a, b) for z in (hi, top) for a in (a0, a0 + w) for b in (b0, b0 + h)])
+    rep1 = draw(rep_for(kind, o))
+    rep2 = draw(rep_for(kind, o2))
+    return ("NM", kind, o, o2, rep1, rep2, "minus-one-vs-minus-two")
+
+
 KINDS = ("P", "V", "L", "PL", "S", "H", "G", "K")
 
 
@@ -414,4 +462,5 @@ def strata(tier):
         n = (300 if q else 10000) if k != "K" else (60 if q else 2000)
         out.append(Stratum("family/" + k, "hyp", family(k), n))
         out.append(Stratum("nearmiss/" + k, "hyp", near_miss(k), n // 2))
+        out.append(Stratum("hash-quirk/" + k, "hyp", hash_quirk(k), max(24, n // 6)))
     return out
